@@ -32,6 +32,8 @@ const SPECIAL: &[(&str, &str, bool, bool, bool)] = &[
     ("const_ptr", "*const u8", false, false, true),
     ("guard_like", "thrtypes::SyncNotSend", false, true, false),
     ("guard_like_copy", "thrtypes::SyncNotSendCopy", false, true, true),
+    ("zst_not_send_sync", "thrtypes::ZstNotSendSync", false, false, true),
+    ("zst_not_sync", "thrtypes::ZstNotSync", true, false, true),
     ("arc_counter", "thrtypes::ArcCounter", true, true, false),
     ("plain_u64", "u64", true, true, true),
 ];
@@ -50,6 +52,19 @@ fn systematic_defs() -> Vec<ThrDef> {
                 name: Box::leak(format!("sys_{}{}", name, if uninit { "_uninit" } else { "" }).into_boxed_str()),
                 variants: vec![(vec![f("x", "u64", true, true), mk("t")], vec![]), (vec![fu("y", "u32", true, true)], vec!["t"]), (vec![mk("t2")], vec!["x"])],
             });
+        }
+    }
+    // many data in one variant: the special type first, around the 12th position and last
+    const NAMES: [&str; 27] = ["a0", "a1", "a2", "a3", "a4", "a5", "a6", "a7", "a8", "a9", "a10", "a11", "a12", "a13", "a14", "a15", "a16", "a17", "a18", "a19", "a20", "a21", "a22", "a23", "a24", "a25", "a26"];
+    for &(name, ty, send, sync, _) in SPECIAL.iter().filter(|s| !(s.2 && s.3)).take(3) {
+        for total in [13usize, 14, 27] {
+            let mut positions = vec![0usize, 11, 12, total - 1];
+            positions.sort();
+            positions.dedup();
+            for pos in positions {
+                let fields: Vec<ThrField> = (0..total).map(|i| if i == pos { f(NAMES[i], ty, send, sync) } else if i % 3 == 1 { f(NAMES[i], "String", true, true) } else { fu(NAMES[i], "u64", true, true) }).collect();
+                out.push(ThrDef { name: Box::leak(format!("many_{}_{}_at{}", name, total, pos).into_boxed_str()), variants: vec![(fields, vec![])] });
+            }
         }
     }
     out
@@ -116,6 +131,8 @@ pub fn add_field<R: truc::record::type_resolver::TypeResolver>(
         "thrtypes::SyncNotSend" => add!(thrtypes::SyncNotSend),
         "thrtypes::SyncNotSendCopy" => add!(thrtypes::SyncNotSendCopy),
         "thrtypes::ArcCounter" => add!(thrtypes::ArcCounter),
+        "thrtypes::ZstNotSendSync" => add!(thrtypes::ZstNotSendSync),
+        "thrtypes::ZstNotSync" => add!(thrtypes::ZstNotSync),
         other => panic!("unknown SIM-T field type {}", other),
     }
     .unwrap()
